@@ -34,6 +34,7 @@ import (
 	"encoding/json"
 	"errors"
 	"fmt"
+	"io"
 	"net"
 	"reflect"
 	"strings"
@@ -194,9 +195,48 @@ type broker interface {
 type natsBroker struct {
 	srv              *server.Server
 	pubC, subC, tapC *nats.Conn
+	proxy            net.Listener
 }
 
-func startNats() (broker, error) {
+// delayProxy forwards a client's bytes to the broker after a fixed delay (the other direction is immediate): a slow
+// uplink, under which "Subscribe returned" and "the broker knows the subscription" are far apart unless Subscribe waits
+func delayProxy(target string, d time.Duration) (net.Listener, string, error) {
+	ln, err := net.Listen("tcp", "127.0.0.1:0")
+	if err != nil {
+		return nil, "", err
+	}
+	go func() {
+		for {
+			c, err := ln.Accept()
+			if err != nil {
+				return
+			}
+			s, err := net.Dial("tcp", target)
+			if err != nil {
+				c.Close()
+				continue
+			}
+			go func() { io.Copy(c, s); c.Close() }()
+			go func() {
+				buf := make([]byte, 32768)
+				for {
+					n, err := c.Read(buf)
+					if n > 0 {
+						time.Sleep(d)
+						s.Write(buf[:n])
+					}
+					if err != nil {
+						s.Close()
+						return
+					}
+				}
+			}()
+		}
+	}()
+	return ln, "nats://" + ln.Addr().String(), nil
+}
+
+func startNats(subDelayMs int) (broker, error) {
 	s, err := server.NewServer(&server.Options{Host: "127.0.0.1", Port: -1, NoLog: true, NoSigs: true})
 	if err != nil {
 		return nil, err
@@ -207,7 +247,16 @@ func startNats() (broker, error) {
 	}
 	b := &natsBroker{srv: s}
 	for _, c := range []**nats.Conn{&b.pubC, &b.subC, &b.tapC} {
-		if *c, err = nats.Connect(s.ClientURL(), nats.NoReconnect()); err != nil {
+		url := s.ClientURL()
+		if c == &b.subC && subDelayMs > 0 {
+			ln, purl, perr := delayProxy(strings.TrimPrefix(url, "nats://"), time.Duration(subDelayMs)*time.Millisecond)
+			if perr != nil {
+				b.close()
+				return nil, perr
+			}
+			b.proxy, url = ln, purl
+		}
+		if *c, err = nats.Connect(url, nats.NoReconnect()); err != nil {
 			b.close()
 			return nil, err
 		}
@@ -237,9 +286,8 @@ func (b *natsBroker) tap(topic string, sink func([]byte)) error {
 	return b.tapC.FlushTimeout(5 * time.Second)
 }
 func (b *natsBroker) syncSubs() error {
-	if err := b.subC.FlushTimeout(5 * time.Second); err != nil {
-		return err
-	}
+	// only the harness's own tap: that the broker knows the SUBSCRIBER's subscription once Subscribe has
+	// returned is the implementation's business (a message published after that must arrive)
 	return b.tapC.FlushTimeout(5 * time.Second)
 }
 func (b *natsBroker) close() {
@@ -247,6 +295,9 @@ func (b *natsBroker) close() {
 		if c != nil {
 			c.Close()
 		}
+	}
+	if b.proxy != nil {
+		b.proxy.Close()
 	}
 	b.srv.Shutdown()
 }
@@ -435,6 +486,7 @@ type step struct {
 
 type caseReq struct {
 	Transport string   `json:"transport"`
+	SubLinkDelayMs int `json:"sub_link_delay_ms"` // nats: every write of the SUBSCRIBER's connection reaches the broker this much later
 	Workers   uint     `json:"workers"`
 	Scope     string   `json:"scope"`
 	Op        string   `json:"sop"`
@@ -486,7 +538,7 @@ func runCase(reg *labdriver.Registry, c *caseReq) (resp labdriver.Resp) {
 	var err error
 	switch c.Transport {
 	case "nats":
-		b, err = startNats()
+		b, err = startNats(c.SubLinkDelayMs)
 	case "stomp":
 		b, err = startStomp()
 	default:
